@@ -37,14 +37,17 @@ def _get_lark():
 
 GRAMMAR = r"""
 start: stmt ";"?
-?stmt: create_table | create_index | pragma | insert | update | delete | select
+?stmt: create_table | create_index | pragma | vacuum | insert | update | delete | select
 create_table: "CREATE"i "TABLE"i ("IF"i "NOT"i "EXISTS"i)? NAME "(" coldef ("," coldef)* ("," fk)* ")"
 coldef: NAME TYPE colopt*
 colopt: "PRIMARY"i "KEY"i -> pk | "AUTOINCREMENT"i -> autoinc | "UNIQUE"i -> unique | "NOT"i "NULL"i -> notnull | "COLLATE"i NAME -> collate | "DEFAULT"i (NUMBER | STRING | NAME) -> default
 fk: "FOREIGN"i "KEY"i "(" NAME ")" "REFERENCES"i NAME "(" NAME ")"
 create_index: "CREATE"i UNIQUE? "INDEX"i ("IF"i "NOT"i "EXISTS"i)? NAME "ON"i NAME "(" NAME ("," NAME)* ")"
-pragma: "PRAGMA"i NAME "=" NAME
-insert: "INSERT"i (OR_REPLACE)? "INTO"i NAME "(" NAME ("," NAME)* ")" "VALUES"i "(" expr ("," expr)* ")"
+pragma: "PRAGMA"i NAME ("=" (NAME | NUMBER) | "(" (NAME | NUMBER) ")")?
+vacuum: "VACUUM"i
+insert: "INSERT"i (OR_REPLACE)? "INTO"i NAME "(" NAME ("," NAME)* ")" "VALUES"i "(" expr ("," expr)* ")" upsert?
+upsert: "ON"i "CONFLICT"i conflict_target? "DO"i (NOTHING | "UPDATE"i "SET"i assign ("," assign)* where?)
+conflict_target: "(" NAME ("," NAME)* ")"
 update: "UPDATE"i NAME "SET"i (SETLIST | assign ("," assign)*) updfrom? where?
 updfrom: "FROM"i NAME
 assign: NAME "=" expr
@@ -61,6 +64,7 @@ limit: "LIMIT"i expr
 ?expr: PARAM | NUMBER | colref | func | "(" select ")" -> subselect
 colref: NAME ("." NAME)?
 UNIQUE: "UNIQUE"i
+NOTHING: "NOTHING"i
 OR_REPLACE: "OR"i /\s+/ ("REPLACE"i | "ROLLBACK"i | "ABORT"i | "FAIL"i | "IGNORE"i)
 BOOL: "AND"i | "OR"i
 ASC: "ASC"i
@@ -147,6 +151,9 @@ class SStmt:
             s = f"DELETE FROM {self.table}"
         elif self.kind == "insert":
             s = f"INSERT INTO {self.table}({', '.join(self.columns)}) VALUES ({', '.join(v.text() for v in self.values)})"
+            u = getattr(self, "upsert", None)
+            if u:
+                s += f" ON CONFLICT({', '.join(u['target'])}) DO " + ("NOTHING" if u["action"] == "nothing" else "UPDATE SET " + ", ".join(f"{c} = {e.text()}" for c, e in u["sets"]))
         else:
             return f"{self.kind.upper()} {self.table or ''}"
         if self.where:
@@ -268,7 +275,21 @@ def _build(tree):
                     st.on_conflict = act
                     if act == "REPLACE":
                         st.or_replace = True
-            vals = [x for x in ch if not (isinstance(x, Token) and x.type in ("NAME", "OR_REPLACE"))]
+            ups = [x for x in ch if isinstance(x, Tree) and x.data == "upsert"]
+            st.upsert = None
+            if ups:
+                u = {"target": [], "action": "update", "sets": [], "where": SStmt("upsert")}
+                for c in ups[0].children:
+                    if isinstance(c, Token) and c.type == "NOTHING":
+                        u["action"] = "nothing"
+                    elif isinstance(c, Tree) and c.data == "conflict_target":
+                        u["target"] = [str(x) for x in c.children]
+                    elif isinstance(c, Tree) and c.data == "assign":
+                        u["sets"].append((str(c.children[0]), expr(c.children[1])))
+                    elif isinstance(c, Tree) and c.data == "where":
+                        where(c, u["where"])
+                st.upsert = u
+            vals = [x for x in ch if not (isinstance(x, Token) and x.type in ("NAME", "OR_REPLACE")) and not (isinstance(x, Tree) and x.data == "upsert")]
             st.values = [expr(v) for v in vals]
         elif t.data == "update":
             st.table = str(ch[0])
@@ -305,6 +326,7 @@ def _build(tree):
             st.index_name, st.table, st.index_cols = names[0], names[1], names[2:]
         elif t.data == "pragma":
             st.table = str(ch[0])
+            st.pragma_arg = str(ch[1]) if len(ch) > 1 else None
         return st
 
     st = stmt(tree.children[0])
